@@ -9,7 +9,7 @@
 (***************************************************************************)
 EXTENDS Traversal, Json
 
-CONSTANTS Mode, SelDepth, Shard, NShards
+CONSTANTS Mode, SelDepth, Shard, NShards, Sample
 
 a == <<97>>  b == <<98>>  c == <<99>>  k0 == <<48>>  k1 == <<49>>
 I(n) == Scalar("int", IF n = 0 THEN <<0>> ELSE <<0, n>>)
@@ -30,11 +30,16 @@ G5 == << MapV(<<a, b>>, <<L(2), I(0)>>), MapV(<<a, b>>, <<L(3), I(1)>>), MapV(<<
          MapV(<<b>>, <<I(3)>>) >>
 G6 == << MapV(<<k1, k0, a>>, << I(1), ListV(<<I(2), I(3)>>), ListV(<<L(2), L(2)>>) >>), ListV(<<S(<<120, 121, 122>>)>>) >>
 G7 == << S(<<114, 111, 111, 116>>) >>
-Graphs == <<G1, G2, G3, G4, G5, G6, G7>>
+\* the same link deep first (beyond a recursion limit) and shallow later
+G8 == << MapV(<<a, b>>, << MapV(<<a>>, <<MapV(<<a>>, <<L(2)>>)>>), L(2) >>), MapV(<<a>>, <<S(<<120>>)>>) >>
+\* the empty string as a map key, also beyond a link
+e == <<>>
+G9 == << MapV(<<e, b>>, << MapV(<<a, e>>, <<I(1), ListV(<<I(2)>>)>>), L(2) >>), MapV(<<e, a>>, <<MapV(<<e>>, <<I(3)>>), I(4)>>) >>
+Graphs == <<G1, G2, G3, G4, G5, G6, G7, G8, G9>>
 
 \* ---- selectors
 Leaves == {SMatch, SSubset(1, 3), SSubset(-3, -1)}
-KeysU == {a, b, k0}
+KeysU == {a, b, k0, <<>>}
 Small(X) == {x \in X : x.t \in {"match", "edge"} \/ (x.t = "all" /\ x.ss[1].t = "match")}
 
 Layer(X) ==
@@ -65,10 +70,12 @@ SelWeight(s) == Len(s.t) + Len(s.a) * 3 + Len(s.ks) * 5 +
                 (LET F[i \in 0..Len(s.ss)] == IF i = 0 THEN 0 ELSE F[i - 1] * 7 + SelWeight(s.ss[i]) IN F[Len(s.ss)])
 
 \* C07 / C14: every selector that compiles, every graph, no controls
+\* (sharded by graph, so that each shard builds the selector set once)
+MyGraphs == {gi \in DOMAIN Graphs : gi % NShards = Shard}
 CasesPlain ==
   UNION {{[g |-> Graphs[gi], sel |-> s, cfg |-> NoCfg] :
-            s \in {x \in Closed(SelDepth, Graphs[gi]) : Compiles(x, FALSE) /\ (SelWeight(x) + gi) % NShards = Shard}}
-         : gi \in DOMAIN Graphs}
+            s \in {x \in Closed(SelDepth, Graphs[gi]) : Compiles(x, FALSE)}}
+         : gi \in MyGraphs}
 
 \* C15: a set of walk-everything / recursive / field selectors x every control, one at a time
 CtlSels(g) ==
@@ -95,9 +102,23 @@ Cfgs(g) ==
 
 CasesCtl ==
   UNION {{[g |-> Graphs[gi], sel |-> s, cfg |-> cf] : s \in CtlSels(Graphs[gi]), cf \in Cfgs(Graphs[gi])}
-         : gi \in DOMAIN Graphs}
+         : gi \in MyGraphs}
 
-GenCases == IF Mode = "plain" THEN CasesPlain ELSE CasesCtl
+\* subset matchers with every sign combination of the bounds, on their own and under recursion
+SubsetSels == {x \in {SSubset(f, t) : f \in {-9, -3, -1, 0, 1, 2, 5, 9}, t \in {-9, -4, -1, 0, 1, 3, 5, 9}} : Compiles(x, FALSE)}
+CasesSubset ==
+  UNION {{[g |-> Graphs[gi], sel |-> s, cfg |-> NoCfg] :
+            s \in UNION {{x, SAll(SAll(x)), SRec(-1, -1, SUnion(<<x, SAll(SEdge)>>))} : x \in SubsetSels}}
+         : gi \in MyGraphs}
+
+\* depth 3: one more layer over a hashed sample of the depth-2 selectors
+CasesPlain3 ==
+  UNION {{[g |-> Graphs[gi], sel |-> s, cfg |-> NoCfg] :
+            s \in {x \in Layer({y \in Closed(2, Graphs[gi]) : SelWeight(y) % 23 = Sample}) : Compiles(x, FALSE)}}
+         : gi \in MyGraphs}
+
+GenCases == CASE Mode = "plain" -> CasesPlain [] Mode = "ctl" -> CasesCtl [] Mode = "subset" -> CasesSubset
+              [] Mode = "plain3" -> CasesPlain3
 
 Emit == done => PrintT(ToJson([g |-> case.g, sel |-> case.sel,
                                cfg |-> [nb |-> Cfg.nb, lb |-> Cfg.lb, start |-> Cfg.start, once |-> Cfg.once,
